@@ -11,6 +11,8 @@ import (
 
 	lcfg "github.com/goblimey/go-ntrip/apps/rtcmlogger/config"
 	"github.com/goblimey/go-ntrip/jsonconfig"
+	rtcm "github.com/goblimey/go-ntrip/rtcm/handler"
+	"log/slog"
 	"verif/vsim/env"
 	"verif/vsim/gnss"
 	"verif/vsim/hx"
@@ -25,7 +27,29 @@ func genSink(t *rt.Tape, name string) *env.Sink {
 	return &env.Sink{Name: name, Latency: lat, ExtraYields: t.SW(5, 2, 1, 1) * (1 + t.S(4))}
 }
 
-func countHeaders(b []byte) int { return bytes.Count(b, []byte("Frame length ")) }
+// Entries in a readable log are counted by the "Frame length " line that every
+// rendered message carries exactly once.  Whether the code under test still
+// renders that line is probed once; if it does not (the wording is not part of
+// any property) the marker falls back to the first line of a rendered message.
+var entryMarker = func() []byte {
+	probe := func(raw []byte) string {
+		m := rtcm.NewNonRTCM(raw)
+		m.LogLevel = slog.LevelDebug
+		return m.String()
+	}
+	a := probe([]byte("abc"))
+	if strings.Count(a, "Frame length ") == 1 {
+		return []byte("Frame length ")
+	}
+	// first line of a rendered non-RTCM message (every entry of the logs the
+	// checks count is preceded by the same code path)
+	if i := strings.IndexByte(a, '\n'); i > 0 {
+		return []byte(a[:i])
+	}
+	return []byte("Frame length ")
+}()
+
+func countHeaders(b []byte) int { return bytes.Count(b, entryMarker) }
 
 // appStream draws a byte stream for the application-level properties: clean
 // (ground truth known to the generator) or noisy (reference = sequential framing).
